@@ -49,6 +49,9 @@ def patch_worker():
     S.__dict__["hasattr"] = AM.sym_hasattr
     S.__dict__["any"] = sym_any
     S.__dict__["all"] = sym_all
+    S.__dict__["round"] = sym_round
+    if "ceil" in S.__dict__:
+        S.__dict__["ceil"] = sym_ceil
     from pycv.patch import _MathProxy
     import numpy
     S.__dict__["np"] = _MathProxy(numpy, {"arange": np_arange, "sqrt": sym.sym_sqrt})
@@ -1024,6 +1027,27 @@ def job_vars(with_control):
 # Solver.run  (C11 time axis, C12 continuation, C16 stop condition, C17 and the history invariant)
 # =====================================================================================================
 
+class Grid:
+    """what the time loop of Solver.run iterates over, in whichever shape the code has:
+         for k in np.arange(t0 + dt, t0 + T + dt, dt)            (ASSUMED numpy contract, tier R)
+         for step in range(1, ceil(round(T/dt, 9)) + 1)          (round/ceil: their real-number semantics)
+       N = number of iterations requested; count_facts: what defines N; grid_facts: raw value -> SI links"""
+
+    def __init__(self, env):
+        self.env = env
+        self.N = None
+        self.count_facts = []
+        self.grid_facts = []
+        self.t0 = env.state["tlast_val"]          # SI time of the last instant before the loop
+        self.kind = None
+
+
+def grid_of(env):
+    if "grid" not in env.ghost:
+        env.ghost["grid"] = Grid(env)
+    return env.ghost["grid"]
+
+
 class SymArange:
     """np.arange(start, stop, step) -- ASSUMED contract of numpy (tier R): ceil((stop-start)/step) elements
     start + i*step for step > 0."""
@@ -1034,13 +1058,28 @@ class SymArange:
         c = sym.ctx()
         self.N = z3.Int(c.fresh_name("N"))
         c.inputs["N(arange length)"] = self.N
-        c.prove_in_path("call[numpy.arange]:step>0", L.Via(env.ghost.get("arange_facts", []), self.step > 0))
+        pos = env.ghost.get("arange_facts", [])
+        c.prove_in_path("call[numpy.arange]:step>0", L.Via(pos, self.step > 0))
         Nr = z3.ToReal(self.N)
-        c.assume(z3.And(self.N >= 0,
-                        z3.If(self.stop > self.start,
-                              z3.And((Nr - 1) * self.step < self.stop - self.start, self.stop - self.start <= Nr * self.step),
-                              self.N == 0)))
-        env.ghost["arange"] = self
+        contract = z3.And(self.N >= 0,
+                          z3.If(self.stop > self.start,
+                                z3.And((Nr - 1) * self.step < self.stop - self.start, self.stop - self.start <= Nr * self.step),
+                                self.N == 0))
+        c.assume(contract)
+        g = grid_of(env)
+        g.kind = "numpy.arange"
+        g.N = self.N
+        dtq, Tq = env.ghost["run_dt"], env.ghost["run_T"]
+        fdt = env.fac("Time", AM.unit_idx("Time", dtq.unit))
+        DT, TT = sym.term_of(dtq.si()), sym.term_of(Tq.si())
+        posf = [fdt > 0, DT > 0, TT > 0]
+        F_step = L.Via(posf, self.step * fdt == DT)
+        F_start = L.Via(posf, self.start * fdt == g.t0 + DT)
+        F_stop = L.Via(posf, self.stop * fdt == g.t0 + TT + DT)
+        g.named = {"raw-step*unit=dt(SI)": F_step, "raw-first-new-instant*unit=previous+dt(SI)": F_start,
+                   "raw-stop*unit=previous+T+dt(SI)": F_stop}
+        g.grid_facts = [F_step, F_start]
+        g.count_facts = posf + [contract, F_step, F_start, F_stop]
 
     def vc_iter(self):
         return AM._Iter(z3.IntVal(0), self.N, 1, z3.IntVal(0), self.N,
@@ -1052,6 +1091,54 @@ def np_arange(start, stop=None, step=1, *a, **k):
         import numpy
         return numpy.arange(start, stop, step, *a, **k)
     return SymArange(sym.ctx().env, start, stop, step)
+
+
+def sym_round(x, ndigits=None):
+    """round(x, n) over the reals: the nearest multiple of 10^-n (ties either way)"""
+    if not sym.is_sym(x):
+        import builtins
+        return builtins.round(x, ndigits) if ndigits is not None else builtins.round(x)
+    c = sym.ctx()
+    nd = int(ndigits or 0)
+    scale = z3.RealVal(10 ** nd)
+    xt = sym.term_of(x)
+    q = z3.Int(c.fresh_name("round_q"))
+    r = z3.Real(c.fresh_name("round"))
+    facts = [r * scale == z3.ToReal(q), xt * scale - z3.ToReal(q) <= z3.RealVal("1/2"), xt * scale - z3.ToReal(q) >= -z3.RealVal("1/2")]
+    for f in facts:
+        c.assume(f)
+    env = c.env
+    if env is not None:
+        g = grid_of(env)
+        g.count_facts += facts
+        g.round_arg = xt
+    return SymNum(r, "float" if ndigits is not None else "int")
+
+
+def sym_ceil(x):
+    if not sym.is_sym(x):
+        import math
+        return math.ceil(x)
+    c = sym.ctx()
+    xt = sym.term_of(x)
+    m = z3.Int(c.fresh_name("ceil"))
+    facts = [z3.ToReal(m) - 1 < xt, xt <= z3.ToReal(m)]
+    for f in facts:
+        c.assume(f)
+    env = c.env
+    if env is not None:
+        g = grid_of(env)
+        g.count_facts += facts
+        g.N = m
+        g.kind = "range(1, ceil(round(T/dt, 9)) + 1)"
+        dtq, Tq = env.ghost["run_dt"], env.ghost["run_T"]
+        DT, TT = sym.term_of(dtq.si()), sym.term_of(Tq.si())
+        fdt = env.fac("Time", AM.unit_idx("Time", dtq.unit))
+        ra = getattr(g, "round_arg", None)
+        g.count_facts += [fdt > 0, DT > 0, TT > 0] + ([ra * DT == TT] if ra is not None else [])
+        g.named = {"ratio-argument-of-round*dt=T(SI)": L.Via([DT > 0, TT > 0], ra * DT == TT)} if ra is not None else {}
+        g.grid_facts = [fdt > 0]
+    return AM.symint(m)
 
 
 def hist_ok(env, j):
@@ -1101,20 +1188,24 @@ def inv_run(env, i, entry):
     sync_from_solver(env, env.solver)
     st = env.state
     g = env.ghost
-    ar = g["arange"]
+    grid = grid_of(env)
     if entry:
         g["run_entry"] = st.snapshot()
         g["run_entry_log"] = len(env.log)
+        g["run_first"] = i                      # loop position on entry (0 for arange, 1 for range(1, n+1))
     e = g["run_entry"]
     dtq = g["run_dt"]
-    d = dict(run_state_inv(env))
-    d["C11:instants-counted"] = st["tlen"] == e["tlen"] + i
-    # the instant recorded last: unchanged before the first iteration, then the (i-1)-th grid value in dt's unit
+    done = z3.simplify(i - g["run_first"])      # iterations completed
+    DT = sym.term_of(dtq.si())
     fdt = env.fac("Time", AM.unit_idx("Time", dtq.unit))
-    d["C11:last-instant-is-the-grid-value"] = z3.If(
-        i == 0, z3.And(st["tlast_val"] == e["tlast_val"], st["tlast_unit"] == e["tlast_unit"]),
-        z3.And(st["tlast_val"] == (ar.start + z3.ToReal(i - 1) * ar.step) * fdt, st["tlast_unit"] == AM.unit_idx("Time", dtq.unit)))
-    d["range"] = z3.And(i >= 0, i <= ar.N)
+    d = dict(run_state_inv(env))
+    d["C11:instants-counted"] = st["tlen"] == e["tlen"] + done
+    # SI time of the instant recorded last = previous final time + (iterations done) * dt, stamped with dt's unit
+    d["C11:last-instant=previous+k*dt(SI)"] = L.Via(
+        [fdt > 0, DT > 0] + list(grid.grid_facts), st["tlast_val"] == e["tlast_val"] + z3.ToReal(done) * DT)
+    d["C11:instants-carry-dt's-unit"] = z3.If(done == 0, st["tlast_unit"] == e["tlast_unit"],
+                                              st["tlast_unit"] == AM.unit_idx("Time", dtq.unit))
+    d["range"] = z3.And(done >= 0, done <= grid.N) if grid.N is not None else z3.BoolVal(False)
     d["C13:lock-flag-only-with-a-self-locking-mating"] = z3.Implies(z3.Not(st["self_locking"]), z3.Not(st["locked"]))
     return d
 
@@ -1135,6 +1226,7 @@ def job_run(fresh, with_stop, with_control):
         dt = H.mkq(c, "TimeInterval", "dt")
         T = H.mkq(c, "TimeInterval", "T")
         env.ghost["run_dt"] = dt
+        env.ghost["run_T"] = T
         env.ghost["arange_facts"] = [env.fac("Time", AM.unit_idx("Time", dt.unit)) > 0, dt.si() > 0]
         # preconditions --------------------------------------------------------------------------------
         c.assume_goal(L.Forall(1, n, lambda j: Sel(st["eff"], j) > 0, name="je"))          # property C02 quantifier
@@ -1185,11 +1277,11 @@ def job_run(fresh, with_stop, with_control):
             return
         O.cover("returns")
         g = env.ghost
-        ar = g.get("arange")
+        grid = g.get("grid")
         ex = g.get("loop_exit")
         e = g.get("run_entry")
         log = env.log
-        if ar is None or e is None:
+        if grid is None or grid.N is None or e is None:
             O.fail("run:loop-over-the-time-grid-reached", props=props)
             return
         pre_loop = log[: g["run_entry_log"]]
@@ -1214,23 +1306,15 @@ def job_run(fresh, with_stop, with_control):
             O.prove("continuation:equivalent-inertia-recomputed-to-the-same-value",
                     e["Jeq_val"] == old["Jeq_val"],
                     props=("C12",))
-        # grid (C11/C12): arange start/stop/step against the SI grid
+        # grid (C11/C12)
         t0 = e["tlast_val"]                                                # SI time of the last instant before the loop
         fdt = env.fac("Time", AM.unit_idx("Time", dt.unit))
-        pos = [fdt > 0, DT > 0, TT > 0]
-        O.prove("grid:raw-step*unit=dt(SI)", L.Via(pos, ar.step * fdt == DT), props=("C11", "C07"))
-        O.prove("grid:raw-first-new-instant*unit=previous+dt(SI)", L.Via(pos, ar.start * fdt == t0 + DT), props=("C11", "C12", "C07"))
-        O.prove("grid:raw-stop*unit=previous+T+dt(SI)", L.Via(pos, ar.stop * fdt == t0 + TT + DT), props=("C11", "C12", "C07"))
-        Nr = z3.ToReal(ar.N)
+        for nm, fact in getattr(grid, "named", {}).items():
+            O.prove(f"grid:{nm}", fact, props=("C11", "C12", "C07"))
+        Nr = z3.ToReal(grid.N)
         K = z3.Int("Ksteps")
         exactN = z3.And(K >= 1, TT == z3.ToReal(K) * DT)
-        arange_contract = z3.And(ar.N >= 0, z3.If(ar.stop > ar.start,
-                                                  z3.And((Nr - 1) * ar.step < ar.stop - ar.start, ar.stop - ar.start <= Nr * ar.step),
-                                                  ar.N == 0))
-        F_step = L.Via(pos, ar.step * fdt == DT)
-        F_start = L.Via(pos, ar.start * fdt == t0 + DT)
-        F_stop = L.Via(pos, ar.stop * fdt == t0 + TT + DT)
-        F_N = L.Via(pos + [arange_contract, F_step, F_start, F_stop], z3.Implies(exactN, ar.N == K))
+        F_N = L.Via(list(grid.count_facts), z3.Implies(exactN, grid.N == K))
         O.prove("grid:T=K*dt=>exactly-K-instants-requested", F_N, props=("C11",))
         for name, gl in run_state_inv(env).items():
             O.prove(f"ensures:RunInv[{name}]", gl, props=_props_of(name))
@@ -1240,16 +1324,15 @@ def job_run(fresh, with_stop, with_control):
             O.prove("stop:run-ended-early=>condition-true-on-the-last-recorded-instant", ev[-1][1] if ev else False, props=("C16",))
             O.prove("stop:nothing-recorded-after-the-instant-that-satisfied-the-condition",
                     bool(ev) and not env.state.changed_since(ev[-1][2]) and log[-1][0] == "stop_check", props=("C16",))
-            O.prove("stop:axis-is-a-prefix-of-the-grid", z3.And(env.state["tlen"] <= e["tlen"] + ar.N), props=("C11", "C16"))
+            O.prove("stop:axis-is-a-prefix-of-the-grid", z3.And(env.state["tlen"] <= e["tlen"] + grid.N), props=("C11", "C16"))
         else:
             O.cover("exit:exhausted")
             stf = env.state
-            O.prove("grid:all-requested-instants-recorded", stf["tlen"] == e["tlen"] + ar.N, props=("C11",))
-            # arithmetic cut: the facts are proved from the path (by matching), the goal from the facts alone (nlsat)
-            facts = [F_N, F_step, F_start, z3.Implies(ar.N >= 1, stf["tlast_val"] == (ar.start + (Nr - 1) * ar.step) * fdt)]
+            O.prove("grid:all-requested-instants-recorded", stf["tlen"] == e["tlen"] + grid.N, props=("C11",))
+            facts = [F_N, stf["tlast_val"] == t0 + Nr * DT]
             O.prove("grid:T=K*dt=>last-instant=previous+T-and-none-beyond",
-                    L.Via(facts, z3.Implies(exactN, stf["tlast_val"] == t0 + TT)), props=("C11", "C12"))
-            O.prove("grid:instants-carry-dt's-unit", z3.Implies(ar.N >= 1, stf["tlast_unit"] == AM.unit_idx("Time", dt.unit)), props=("C11",))
+                    L.Via(facts, z3.Implies(exactN, stf["tlast_val"] == t0 + TT)), props=("C11", "C12", "C07"))
+            O.prove("grid:instants-carry-dt's-unit", z3.Implies(grid.N >= 1, stf["tlast_unit"] == AM.unit_idx("Time", dt.unit)), props=("C11",))
 
     tag = ("fresh" if fresh else "continuation") + (",stop" if with_stop else "") + (",control" if with_control else "")
     return Job(f"solver.run[{tag}]", body, props, functions=[f"{Q}.run"], expect_covers=("returns",),
